@@ -8,25 +8,7 @@ open Rooc Sexp
 
 variable {α : Type} [Arith α] [Wire α]
 
-/-- NaN payloads are not part of the protocol: every NaN crosses as `#x7ff8000000000000`. -/
-def canon (v : α) : α := if Arith.isNaN v then Wire.ofBits 0x7ff8000000000000 else v
-def canonTy : VarType α → VarType α
-  | .nnreal a b => .nnreal (canon a) (canon b)
-  | .real a b => .real (canon a) (canon b)
-  | t => t
-
-def encBounds (b : Bounds α) : Sexp := app "b" [encNum (canon b.lower), encNum (canon b.upper)]
-
-def encReport (r : BoundsReport α) : Sexp :=
-  app "ok" [app "vars" (r.variables.map fun p => encBounds p.2),
-            app "exprs" (r.expressions.map encBounds),
-            app "domain" (r.domain.map fun d => DomVar.enc { d with ty := canonTy d.ty })]
-
-def decInstance (d cs es : List Sexp) : Option (List (DomVar α) × List (Constraint α) × List (Exp α)) := do
-  let d ← optAll (d.map DomVar.dec)
-  let cs ← optAll (cs.map Constraint.dec)
-  let es ← optAll (es.map Exp.dec)
-  pure (d, cs, es)
+open BoundsOracle
 
 /-- model requests for C07 (run at `Float` for the exact diff, at `Ext Rat` as oracle).
 `analyze TOL (domain …) (constraints …) (exprs …)` uses the step limit regenerated from bounds.rs;
@@ -35,6 +17,10 @@ def handle (α : Type) [Arith α] [Wire α] : List Sexp → Sexp
   | [.atom "analyze", tol, .list (.atom "domain" :: d), .list (.atom "constraints" :: cs), .list (.atom "exprs" :: es)] =>
     match (decNumS tol : Option α), decInstance (α := α) d cs es with
     | some tol, some (d, cs, es) => encReport (analyzeBounds d cs es tol Gen.boundsMaxSteps)
+    | _, _ => app "err" [.atom "decode"]
+  | [.atom "linbounds", tol, .list (.atom "domain" :: d), .list (.atom "constraints" :: cs)] =>
+    match (decNumS tol : Option α), decInstance (α := α) d cs [] with
+    | some tol, some (d, cs, _) => encReport (linearizerBounds d cs tol Gen.boundsMaxSteps)
     | _, _ => app "err" [.atom "decode"]
   | [.atom "analyze-steps", .atom n, tol, .list (.atom "domain" :: d), .list (.atom "constraints" :: cs), .list (.atom "exprs" :: es)] =>
     match n.toNat?, (decNumS tol : Option α), decInstance (α := α) d cs es with
@@ -52,8 +38,15 @@ def handle (α : Type) [Arith α] [Wire α] : List Sexp → Sexp
 
 /-- exact oracle: the PROPERTY evaluated on the implementation's own answer. -/
 def oracle : List Sexp → Sexp
-  | [.atom "check", tol, .list (.atom "domain" :: d), .list (.atom "constraints" :: cs), .list (.atom "exprs" :: es),
-     .list [.atom "ok", .list (.atom "vars" :: vs), .list (.atom "exprs" :: bs), .list (.atom "domain" :: d')]] =>
-    BoundsOracle.check tol d cs es vs bs d'
+  | [.atom "check", tol, .list (.atom "domain" :: d), .list (.atom "constraints" :: cs), .list (.atom "exprs" :: es), impl] =>
+    match impl with
+    | .list [.atom "ok", .list (.atom "vars" :: vs), .list (.atom "exprs" :: bs), .list (.atom "domain" :: d')] =>
+      BoundsOracle.check false Gen.boundsMaxSteps tol d cs es impl vs bs d'
+    | _ => app "err" [.atom "bad-request"]
+  | [.atom "check-lin", tol, .list (.atom "domain" :: d), .list (.atom "constraints" :: cs), impl] =>
+    match impl with
+    | .list [.atom "ok", .list (.atom "vars" :: vs), .list (.atom "exprs" :: bs), .list (.atom "domain" :: d')] =>
+      BoundsOracle.check true Gen.boundsMaxSteps tol d cs [] impl vs bs d'
+    | _ => app "err" [.atom "bad-request"]
   | _ => app "err" [.atom "bad-request"]
 end Rooc.Drv.C07
